@@ -41,4 +41,21 @@ def showIntList (l : List Int) : String :=
 def sortNats (l : List Nat) : List Nat :=
   l.foldl (fun acc x => (acc.takeWhile (· ≤ x)) ++ [x] ++ (acc.dropWhile (· ≤ x))) []
 
+/-- strings travel as `s:` followed by dot-separated decimal code points
+    (`s:` alone is the empty string), so spaces/newlines never break a line -/
+def parseStr? (s : String) : Option String :=
+  if !s.startsWith "s:" then none else
+  let body := (s.drop 2).toString
+  if body.isEmpty then some "" else
+  ((body.splitOn ".").mapM (fun (t : String) => t.toNat?.map Char.ofNat)).map String.ofList
+
+def showStr (s : String) : String :=
+  "s:" ++ ".".intercalate (s.toList.map (fun c => toString c.toNat))
+
+def parseStrList? (s : String) : Option (List String) :=
+  if s == "-" then some [] else (s.splitOn ",").mapM parseStr?
+
+def showStrList (l : List String) : String :=
+  if l.isEmpty then "-" else ",".intercalate (l.map showStr)
+
 end SaVerif.Drv
